@@ -174,25 +174,26 @@ def endsInANumber (d : Bytes) : Bool :=
   | some last => (!last.isEmpty && last.all isDigit) || (parseIpv4Number last).isSome
 
 /-- `parse_ipv4addr`: at most four parts (a trailing empty one dropped), each a number, all but the last ≤ 255, the
-last one filling the remaining bytes -/
-def parseIpv4 (d : Bytes) : Option Nat :=
+last one filling the remaining bytes.  `InvalidIpv4Address` is `.err`; `numbers.pop().expect("a non-empty list of numbers")`
+is the `.crash` branch (`split` never returns an empty list and only ONE trailing empty part is popped, so it takes the
+input "" to get there — `Lemmas/Http.lean: parseIpv4_no_crash`). -/
+def parseIpv4 (d : Bytes) : Res Nat :=
   let parts := splitOn 46 d
   let parts := if parts.getLast? == some [] then parts.dropLast else parts
-  if parts.length > 4 then none
+  if parts.length > 4 then .err .invalidInput
   else
     match parts.mapM (fun p => (parseIpv4Number p).bind id) with
-    | none => none
+    | none => .err .invalidInput
     | some numbers =>
       match numbers.reverse with
-      | [] => none  -- (`expect("a non-empty list of numbers")`: `split` never returns an empty list and only ONE trailing
-                    -- empty part is popped, so the list is empty only for the input "" — which `Host::parse` rejects before)
+      | [] => .crash
       | last :: revInit =>
         let init := revInit.reverse
-        if last ≥ 256 ^ (4 - init.length) then none
-        else if init.any (· > 255) then none
+        if last ≥ 256 ^ (4 - init.length) then .err .invalidInput
+        else if init.any (· > 255) then .err .invalidInput
         else
           let shifted := (List.range init.length).zip init |>.map fun (i, n) => n * 256 ^ (3 - i)
-          some (last + shifted.foldl (· + ·) 0)
+          .ok (last + shifted.foldl (· + ·) 0)
 
 /-- one hexadecimal piece of an IPv6 literal: up to four hex digits → (value, digits consumed, rest) -/
 def hexPiece : Nat → Bytes → Nat → Nat → Nat × Nat × Bytes
@@ -302,19 +303,22 @@ def domainToAscii (idna : Bytes → Option Bytes) (d : Bytes) : Option Bytes :=
   if plainAscii d then (if d.any deniedAscii then none else some (asciiLower d))
   else idna d
 
-/-- `Host::parse_cow` for a special scheme -/
-def parseHost (idna : Bytes → Option Bytes) (input : Bytes) : Option Host :=
+/-- `Host::parse_cow` for a special scheme (every `ParseError` is `.err`; the caller maps it to `InvalidInput`) -/
+def parseHost (idna : Bytes → Option Bytes) (input : Bytes) : Res Host :=
   match input with
   | 91 :: r =>
-    if input.getLast? != some 93 then none
-    else (parseIpv6 r.dropLast).map Host.ipv6
+    if input.getLast? != some 93 then .err .invalidInput
+    else
+      match parseIpv6 r.dropLast with
+      | some segs => .ok (.ipv6 segs)
+      | none => .err .invalidInput
   | _ =>
     match domainToAscii idna (pctDecode input) with
-    | none => none
+    | none => .err .invalidInput
     | some domain =>
-      if domain.isEmpty then none
-      else if endsInANumber domain then (parseIpv4 domain).map Host.ipv4
-      else some (.domain domain)
+      if domain.isEmpty then .err .invalidInput
+      else if endsInANumber domain then (parseIpv4 domain).bind fun n => .ok (.ipv4 n)
+      else .ok (.domain domain)
 
 /-- the URL serialiser's zero run (`longest_zero_sequence`): the first longest run, only if two or more -/
 def urlZeroRunGo : List Nat → Nat → Option Nat → Nat × Nat → Nat × Nat
@@ -480,8 +484,9 @@ def parseUrl (idna : Bytes → Option Bytes) (protocol : Protocol) (after : Byte
   if hostText.isEmpty then .err .invalidInput
   else
     match parseHost idna hostText with
-    | none => .err .invalidInput
-    | some host =>
+    | .err k => .err k
+    | .crash => .crash
+    | .ok host =>
       let portRes : Option (Option Nat × Bytes) :=
         match afterHost with
         | 58 :: r => parsePort protocol.defaultPort (r ++ tail)
